@@ -862,6 +862,8 @@ def replay(run: lib.Run, audit: dict, path: str) -> int:
         print("traced program now:", audit["facts"]["atomic_write_program"])
         print("recorded:", rp.get("traced_program"))
         return 0
+    if c.get("kind") == "translated":
+        return fstranslated.replay_case(mod, c)
     if c.get("kind") == "history":
         disk = Disk(mod)
         try:
